@@ -156,8 +156,9 @@ Lemma off_step faces k F : nth_error faces k = Some F -> off faces (S k) = off f
 Proof.
   revert k. induction faces as [|G t IH]; intros k H; [destruct k; discriminate|].
   destruct k as [|k]; cbn in H.
-  - inversion H; subst. cbn. destruct t; lia.
-  - cbn [off]. rewrite (IH k H). cbn [off]. lia.
+  - inversion H; subst. cbn. lia.
+  - change (off (G :: t) (S (S k))) with (zlen G + off t (S k)).
+    change (off (G :: t) (S k)) with (zlen G + off t k). rewrite (IH k H). lia.
 Qed.
 
 Lemma off_mono faces a b F : (a < b)%nat -> nth_error faces a = Some F -> off faces a + zlen F <= off faces b.
@@ -167,10 +168,12 @@ Proof.
   - rewrite (off_step _ _ _ Ha). lia.
   - assert (Hlt : (a < b)%nat) by lia. specialize (IH Hlt).
     destruct (nth_error faces b) as [G|] eqn:Eb.
-    + rewrite (off_step _ _ _ Eb). unfold zlen. lia.
+    + rewrite (off_step _ _ _ Eb). unfold zlen in *. lia.
     + assert (off faces (S b) = off faces b).
       { clear - Eb. revert b Eb. induction faces as [|G t IH]; intros b Eb; [destruct b; reflexivity|].
-        destruct b; [discriminate|]. cbn in Eb. cbn [off]. rewrite (IH b Eb). reflexivity. }
+        destruct b; [discriminate|]. cbn in Eb.
+        change (off (G :: t) (S (S b))) with (zlen G + off t (S b)).
+        change (off (G :: t) (S b)) with (zlen G + off t b). rewrite (IH b Eb). reflexivity. }
       lia.
 Qed.
 
